@@ -22,7 +22,7 @@ RULE = (
     "produced at least 1 non-empty output; distinct = canonical JSON hash of the triple."
 )
 ASSUMPTIONS = ["interpreter start-up and third-party libraries are deterministic given the hash seed", "outputs are written relative to a scratch cwd so paths do not differ"]
-REQUIRED_CLAUSES = ["outputs.byte-identical-across-seeds", "outputs.inprocess-repeat-identical"]
+REQUIRED_CLAUSES = ["outputs.byte-identical-across-seeds", "outputs.inprocess-repeat-identical", "outputs.same-in-a-row-as-in-a-fresh-interpreter"]
 SHARDS = {"quick": 16, "thorough": 16}
 _cur = {}
 
@@ -50,7 +50,9 @@ def cases(shard, nshards, seed, tier):
 
     corpus = _corpus()
     rng = random.Random(f"{seed}:C14:corpus")
-    pick = corpus if tier == "thorough" else sorted(rng.sample(corpus, 7) + ["tests/1ehz-assembly-1.cif"])
+    # quick: the structures with the most contested contacts / stems always, plus a random few
+    always = ["tests/1ehz-assembly-1.cif", "tests/4qln.cif", "tests/8btk_B7.cif", "tests/1gid.cif.gz"]
+    pick = corpus if tier == "thorough" else sorted(set(always + rng.sample([c for c in corpus if c not in always and not c.endswith(("2HY9.cif", "6RS3.cif", "1a9n.cif", "6g90_1.cif"))], 4)))
     for inp in pick:
         variants = [
             ("annotator", ["-a", "{in}"]),
@@ -70,6 +72,13 @@ def cases(shard, nshards, seed, tier):
                 yield {"family": f"cli-{mod}", "module": mod, "argv": argv, "input": inp}
     if mine():
         yield {"family": "cli-adapter", "module": "adapter", "argv": ["{in}", "--external", "{repo}/tests/184D-fr3d.txt", "--tool", "fr3d", "-a", "--csv", "o.csv"], "input": "tests/184D.cif"}
+    # one interpreter handling several inputs in a row vs a fresh interpreter per input
+    for i in range(6 if tier == "quick" else 60):
+        if mine():
+            yield {"family": "batch-vs-single-2d", "module": "lib2d_batch", "i": i}
+    for i in range(2 if tier == "quick" else 10):
+        if mine():
+            yield {"family": "batch-vs-single-3d", "module": "lib3d_batch", "i": i}
     nb = 20 if tier == "quick" else 200
     for i in range(nb):
         if not mine():
@@ -110,7 +119,82 @@ def _run(case, hashseed, workdir, inputs):
     return outs, p.stderr[-800:]
 
 
+def _batch_case(case, rec):
+    """The same inputs once in one interpreter (in a row) and once in a fresh interpreter each."""
+    seed = os.environ.get("VERIF_SEED", "0")
+    workdir = tempfile.mkdtemp(prefix="vmon-c14b-")
+    try:
+        rng = random.Random(f"{seed}:C14:batch:{case['family']}:{case['i']}")
+        paths = []
+        if case["module"] == "lib2d_batch":
+            # related structures: the same crossing pattern with different stem lengths, the same
+            # stems with another sequence / another 3' tail, plus unrelated ones
+            structs = []
+            a, b = rng.randint(1, 3), rng.randint(3, 6)
+            for la, lb in ((a, b), (b, a), (a, a)):
+                toks = [0, 1, 0, 1]
+                n1, p1 = _stems_from_tokens(toks, [la, lb], gap=2)
+                structs.append((n1, p1))
+            n1, p1 = structs[0]
+            structs.append((n1 + 3, p1))
+            for _ in range(2):
+                structs.append(gen2d.random_stems(rng, rng.randint(2, 5), maxlen=4, spacer=(0, 2), shape=rng.choice([None, "chain", "ladder"])))
+            rng.shuffle(structs)
+            for k, (n, pairs) in enumerate(structs):
+                pth = os.path.join(workdir, f"in{k}.bpseq")
+                seqshift = rng.randint(0, 3)
+                b_ = mon2d.make_bpseq(n, pairs, "".join("ACGU"[(i + seqshift) % 4] for i in range(n)))
+                open(pth, "w").write(str(b_) + "\n")
+                paths.append(pth)
+            single = "lib2d_batch"
+        else:
+            files = [f for f in _corpus() if os.path.getsize(os.path.join(core.REPO, f)) < 400_000]
+            paths = [os.path.join(core.REPO, f) for f in rng.sample(files, 3)]
+            single = "lib3d_batch"
+        env = dict(os.environ, PYTHONHASHSEED="0", LOGLEVEL="CRITICAL", VERIF_REPO=core.REPO)
+
+        def run(argv):
+            p = subprocess.run([sys.executable, "-m", "vmon.launch", single] + argv, cwd=workdir, env=env, capture_output=True, text=True, timeout=900)
+            return p.stdout, p.returncode
+
+        out_all, rc = run(paths)
+        sections = out_all.split("### ")[1:]
+        rec.mark_nontrivial(bool(sections))
+        diff = None
+        for k, pth in enumerate(paths):
+            o1, rc1 = run([pth])
+            want = o1.split("### ")[1:]
+            want = want[0].split("\n", 1)[1] if want else ""
+            got = sections[k].split("\n", 1)[1] if k < len(sections) else None
+            if got != want:
+                la, lb = (want or "").splitlines(), (got or "").splitlines()
+                idx = next((i for i, (x, y) in enumerate(zip(la, lb)) if x != y), min(len(la), len(lb)))
+                diff = {"input": k, "line": idx + 1, "fresh-interpreter": la[idx][:160] if idx < len(la) else None, "in-a-row": lb[idx][:160] if idx < len(lb) else None,
+                        "inputs": [open(p).read()[:400] for p in paths] if case["module"] == "lib2d_batch" else paths}
+                break
+        rec.check("outputs.same-in-a-row-as-in-a-fresh-interpreter", diff is None, lambda: {"case": case, "diff": diff}, mechanism=None)
+        rec.count("runs", len(paths) + 1)
+    finally:
+        shutil.rmtree(workdir, ignore_errors=True)
+
+
+def _stems_from_tokens(toks, lens, gap=1):
+    pos, first, pairs = 1, {}, []
+    for t in toks:
+        L = lens[t]
+        if t in first:
+            a = first[t]
+            for q in range(L):
+                pairs.append((a + q, pos + L - 1 - q))
+        else:
+            first[t] = pos
+        pos += L + gap
+    return pos - 1, sorted(pairs)
+
+
 def run_case(case, rec):
+    if case["family"].startswith("batch-vs-single"):
+        return _batch_case(case, rec)
     seeds = [0, 1, 2] if os.environ.get("VERIF_TIER_EFFECTIVE", _cur.get("tier", "quick")) == "quick" else [0, 1, 2, 4242, "random", "random"]
     workdir = tempfile.mkdtemp(prefix="vmon-c14-")
     try:
